@@ -57,6 +57,31 @@ def torn(k: int, old: bytes, new: bytes) -> bytes:
     return new[:k] + old[k:]
 
 
+def block_text(block: bytes) -> Optional[str]:
+    """The text IH5UserBlock.load hands to json.loads, by the documented layout (harness reader);
+    None when the head of the block is not readable."""
+    try:
+        head = reclib._read_head_raw(block, 512)
+        if head is None:
+            return None
+        if head[0] > 512:
+            head = reclib._read_head_raw(block, head[0])
+            if head is None:
+                return None
+    except (UnicodeDecodeError, ValueError):
+        return None
+    return head[1]
+
+
+def real_json_verdict(text: str) -> List[bool]:
+    """[json.loads accepts, ... and the value is an object]"""
+    try:
+        v = json.loads(text)
+    except ValueError:
+        return [False, False]
+    return [True, isinstance(v, dict)]
+
+
 def pieces(b: bytes) -> List[Any]:
     """Wire form of a block for the model: text atoms, ["n"] newline, ["z", k] k NUL bytes."""
     out: List[Any] = []
